@@ -52,7 +52,9 @@ pub fn plural_source(r: &mut Rng) -> String {
         let t = &mut p.txs[0];
         let nref = 2 + r.below(3);
         for k in 0..nref {
-            let name = (*r.pick(&["zeta", "alpha", "mid", "beta", "omega", "kappa"])).to_string() + &k.to_string();
+            // names, labels and keys come from small pools: an entry written twice under one name or label is
+            // part of "several of everything" (a container keyed by it only forgets the order when keys repeat)
+            let name = (*r.pick(&["zeta", "alpha", "mid", "beta", "omega", "kappa"])).to_string() + &(if r.chance(1, 2) { k.to_string() } else { String::new() });
             t.references.push((name, E::UtxoRef(hx(&[0x70 + k as u8; 32]), r.below(4))));
         }
         let mut sg = t.signers.take().unwrap_or_default();
@@ -63,7 +65,8 @@ pub fn plural_source(r: &mut Rng) -> String {
         t.signers = Some(sg);
         let mut md = t.metadata.take().unwrap_or_default();
         for _ in 0..(2 + r.below(3)) {
-            md.push((E::Num(100 + r.below(900) as i64), E::Str("m".into())));
+            let label = if r.chance(1, 2) { *r.pick(&[1i64, 2, 674]) } else { 100 + r.below(900) as i64 };
+            md.push((E::Num(label), E::Str(format!("m{}", r.below(50)))));
         }
         t.metadata = Some(md);
         for _ in 0..(1 + r.below(3)) {
@@ -490,33 +493,27 @@ fn cased(r: &mut Rng, base: &str) -> String {
     }
 }
 
-pub struct IfaceProgram {
-    pub src: String,
+pub struct IfaceTx {
+    pub name: String,
     pub params: Vec<String>,
-    pub parties: Vec<String>,
-    pub env: Vec<String>,
     pub used: Vec<String>,
 }
 
+pub struct IfaceProgram {
+    pub src: String,
+    pub parties: Vec<String>,
+    pub env: Vec<String>,
+    pub txs: Vec<IfaceTx>,
+}
+
+/// One to three transactions over shared parties and (two times out of three) an environment; every
+/// transaction has its own parameters and decides on its own whether it reads the environment.
 pub fn interface_program(r: &mut Rng, collide: bool) -> IfaceProgram {
     let sender = cased(r, "sender");
     let receiver = cased(r, "receiver");
-    let qty = cased(r, "quantity");
-    let extra = cased(r, "bonus");
-    let unused = cased(r, "unusedparam");
     let envv = cased(r, "feecap");
     let envb = cased(r, "tokenpolicy");
     let with_env = r.chance(2, 3);
-    let with_unused = r.chance(1, 2);
-    let mut params = vec![qty.clone(), extra.clone()];
-    if with_unused {
-        params.push(unused.clone());
-    }
-    if collide {
-        // a second parameter equal to the first up to case
-        let other = if qty == qty.to_lowercase() { qty.to_uppercase() } else { qty.to_lowercase() };
-        params.push(other);
-    }
     let mut src = String::new();
     let mut env = vec![];
     if with_env {
@@ -524,26 +521,42 @@ pub fn interface_program(r: &mut Rng, collide: bool) -> IfaceProgram {
         env = vec![envv.clone(), envb.clone()];
     }
     src.push_str(&format!("party {sender};\nparty {receiver};\n\n"));
-    let plist = params.iter().map(|p| format!("{p}: Int")).collect::<Vec<_>>().join(", ");
-    let amount = if with_env {
-        format!("Ada({qty}) + Ada({extra}) + Ada({envv})")
-    } else {
-        format!("Ada({qty}) + Ada({extra})")
-    };
-    let mint = if with_env {
-        format!("    mint {{\n        amount: AnyAsset({envb}, \"TK\", 1),\n        redeemer: (),\n    }}\n")
-    } else {
-        String::new()
-    };
-    src.push_str(&format!(
-        "tx Pay({plist}) {{\n    input source {{\n        from: {sender},\n        min_amount: {amount} + fees,\n    }}\n{mint}    output {{\n        to: {receiver},\n        amount: {amount},\n    }}\n    output {{\n        to: {sender},\n        amount: source - {amount} - fees,\n    }}\n}}\n"
-    ));
-    let mut used = vec![qty, extra, sender.clone(), receiver.clone()];
-    if with_env {
-        used.push(envv);
-        used.push(envb);
+    let ntx = 1 + r.below(3) as usize;
+    let mut txs = vec![];
+    for (k, name) in ["Pay", "Refund", "Sweep"].iter().take(ntx).enumerate() {
+        let qty = cased(r, "quantity");
+        let extra = cased(r, "bonus");
+        let unused = cased(r, "unusedparam");
+        let mut params = vec![qty.clone(), extra.clone()];
+        if r.chance(1, 2) {
+            params.push(unused.clone());
+        }
+        if collide && k == 0 {
+            // a second parameter equal to the first up to case
+            let other = if qty == qty.to_lowercase() { qty.to_uppercase() } else { qty.to_lowercase() };
+            params.push(other);
+        }
+        // the first transaction of a program with an environment reads it more often than not, so that
+        // "an earlier one does, the last one does not" is a common shape
+        let reads_env = with_env && (if k == 0 { r.chance(3, 4) } else { r.chance(1, 2) });
+        let plist = params.iter().map(|p| format!("{p}: Int")).collect::<Vec<_>>().join(", ");
+        let amount = if reads_env { format!("Ada({qty}) + Ada({extra}) + Ada({envv})") } else { format!("Ada({qty}) + Ada({extra})") };
+        let mint = if reads_env {
+            format!("    mint {{\n        amount: AnyAsset({envb}, \"TK\", 1),\n        redeemer: (),\n    }}\n")
+        } else {
+            String::new()
+        };
+        src.push_str(&format!(
+            "tx {name}({plist}) {{\n    input source {{\n        from: {sender},\n        min_amount: {amount} + fees,\n    }}\n{mint}    output {{\n        to: {receiver},\n        amount: {amount},\n    }}\n    output {{\n        to: {sender},\n        amount: source - {amount} - fees,\n    }}\n}}\n\n"
+        ));
+        let mut used = vec![qty, extra, sender.clone(), receiver.clone()];
+        if reads_env {
+            used.push(envv.clone());
+            used.push(envb.clone());
+        }
+        txs.push(IfaceTx { name: name.to_string(), params, used });
     }
-    IfaceProgram { src, params, parties: vec![sender, receiver], env, used }
+    IfaceProgram { src, parties: vec![sender, receiver], env, txs }
 }
 
 pub fn run_c17(opts: &Opts, out: &mut Emitter) {
@@ -554,10 +567,9 @@ pub fn run_c17(opts: &Opts, out: &mut Emitter) {
         "corpus".into(),
         IfaceProgram {
             src: "party Sender;\nparty Receiver;\n\ntx t(Qty: Int) {\n    input source {\n        from: Sender,\n        min_amount: Ada(Qty) + fees,\n    }\n    output {\n        to: Receiver,\n        amount: Ada(Qty),\n    }\n    output {\n        to: Sender,\n        amount: source - Ada(Qty) - fees,\n    }\n}\n".into(),
-            params: vec!["Qty".into()],
             parties: vec!["Sender".into(), "Receiver".into()],
             env: vec![],
-            used: vec!["Qty".into(), "Sender".into(), "Receiver".into()],
+            txs: vec![IfaceTx { name: "t".into(), params: vec!["Qty".into()], used: vec!["Qty".into(), "Sender".into(), "Receiver".into()] }],
         },
     ));
     for k in 0..opts.n {
@@ -601,7 +613,7 @@ pub fn run_c17(opts: &Opts, out: &mut Emitter) {
                 }
                 Err(e) => err = json!(e),
             }
-            json!({"probe": "tii", "src": p.src, "declared": {"params": p.params, "parties": p.parties, "env": p.env, "used": p.used},
+            json!({"probe": "tii", "src": p.src, "declared": {"parties": p.parties, "env": p.env, "txs": p.txs.iter().map(|t| json!({"name": t.name, "params": t.params, "used": t.used})).collect::<Vec<_>>()},
                    "obs": {"tii": tii_json, "txs": txs, "error": err, "lowered_txs": lowered.len()}})
         });
     }
